@@ -308,6 +308,30 @@ func (ctx *EvalCtx) ident(name string) CV {
 			}
 		}
 		ctx.fail("rangeidx used outside a range loop header")
+	case "rangeseq":
+		// the slice a range-over-slice loop walks (evaluated once before the loop, often an unnamed call result):
+		// the operand of the len() the hidden index is compared with in the loop head
+		if ctx.frame != nil && ctx.block != nil {
+			for _, in := range ctx.block.Instrs {
+				cmp, ok := in.(*ssa.BinOp)
+				if !ok || cmp.Op != token.LSS {
+					continue
+				}
+				inc, ok := cmp.X.(*ssa.BinOp)
+				if !ok || inc.Op != token.ADD {
+					continue
+				}
+				if p, ok := inc.X.(*ssa.Phi); !ok || p.Comment != "rangeindex" {
+					continue
+				}
+				if call, ok := cmp.Y.(*ssa.Call); ok {
+					if b, ok := call.Call.Value.(*ssa.Builtin); ok && b.Name() == "len" && len(call.Call.Args) == 1 {
+						return CV{ctx.frame.val(call.Call.Args[0]), call.Call.Args[0].Type()}
+					}
+				}
+			}
+		}
+		ctx.fail("rangeseq used outside a range-over-slice loop header")
 	}
 	if v, ok := ctx.vars[name]; ok {
 		// a parameter that the function assigns to lives in a local cell; inside the body (invariants,
@@ -839,6 +863,17 @@ func (ctx *EvalCtx) callExpr(x *ast.CallExpr) CV {
 				ctx.fail("has() needs a map")
 			}
 			return CV{f.And(f.Neq(m.t, f.Int(0)), ex.mapHas(ctx.state(), m.t, k.t, mt)), nil}
+		case "allocated":
+			// allocated(p): p points to an object that exists now (non-nil and older than the allocation frontier),
+			// so it differs from everything allocated from here on
+			a := ctx.eval(x.Args[0])
+			t := a.t
+			if t.sort == Sort("Slice") {
+				// a slice: its backing array, if it has one (nil slices have none)
+				t = f.Acc("Slice", "ref", t)
+				return CV{f.And(f.Ge(t, f.Int(0)), f.Lt(t, ctx.state().frontier)), nil}
+			}
+			return CV{f.And(f.Gt(t, f.Int(0)), f.Lt(t, ctx.state().frontier)), nil}
 		case "isnil":
 			a := ctx.eval(x.Args[0])
 			if a.t.sort == Sort("Slice") {
